@@ -543,6 +543,21 @@ pub fn deep_ops<D: Dec>() -> (Vec<Vec<Op>>, usize) {
             }
         }
     }
+    // burst cycles (A^a B^b)^40: e.g. four good frames, two bad frames, again and again
+    for a in &alpha {
+        for b in &alpha {
+            if a == b { continue; }
+            for (na, nb) in [(1usize, 1usize), (2, 1), (3, 1), (4, 2), (5, 1), (8, 3), (1, 2), (2, 2), (4, 1), (12, 2)] {
+                let mut v = Vec::with_capacity((na + nb) * 40 + 4);
+                for _ in 0..40 {
+                    v.extend(std::iter::repeat(*a).take(na));
+                    v.extend(std::iter::repeat(*b).take(nb));
+                }
+                v.extend(tails[1].iter().copied());
+                fam.push(v);
+            }
+        }
+    }
     let g4a = fam.len();
     let traffic: Vec<u8> = if D::IS_SET2 { vec![0x12, 0x1C, 0x1C, 0x1C, 0xF0, 0x1C, 0xE0, 0x75, 0xE0, 0xF0, 0x75, 0xF0, 0x12, 0x58, 0x58, 0xF0, 0x58, 0x77, 0x77, 0xF0, 0x77, 0x14, 0x21, 0xF0, 0x21, 0xF0, 0x14] } else { vec![0x2A, 0x1E, 0x1E, 0x1E, 0x9E, 0xE0, 0x48, 0xE0, 0xC8, 0xAA, 0x3A, 0x3A, 0xBA, 0x45, 0x45, 0xC5, 0x1D, 0x2E, 0xAE, 0x9D] };
     for r in [0usize, 100, 33, 10, 3] {
@@ -633,7 +648,7 @@ fn c18_pumping<D: Dec>(run: &mut Run) {
 }
 
 pub fn c18(run: &mut Run) {
-    run.rule = "Differential against three separately owned stages (Ps2Decoder, ScancodeSetN, EventDecoder) wired exactly as the property says; every return value is compared, and after each sequence both sides receive a probe suffix that fingerprints every stage behaviourally (press of A through an argument-encoding layout = modifiers + mode; byte 0x14/0x1D = a different event in every scancode context; two valid frames bit by bit = pending count and register contents). Exhaustive per-operation slices over the fed stage with the other stages in non-initial states: add_bit (2047 frame states x 2 bits x 6/3 scancode contexts x 8 modifier states), add_word (2048 words x contexts x 8 x 3 frame states), add_byte (256 x contexts x 64 frame states x 8), process_keyevent (124 x 3 x 64 frame states x contexts x 2), clear / set_ctrl_handling (2047 x contexts x 8 x 3). State exploration: BFS over a 21-symbol alphabet of operations with states named by Keyboard's Debug rendering. Repeat-then-perturb: the same accepted frame 1-8 times (typematic repeat, as words and bit by bit), then each single-bit corruption, in every scancode context. Deep-history families: two-phase repetition grammar S A^i B^j T over a 21-symbol alphabet with (i,j) up to (700,700) and noisy-line workloads of 6000 frames, also in 'driver' form (every decoded key event fed to process_keyevent on both sides). Pumping: typical operation patterns repeated for >= 70,000 operations. Random: interleavings of all six entry points with line noise (corrupted frames, partial frames + clear(), raw words), shrunk by proptest. Non-trivial slice = another stage in a non-initial state (distinct by construction); non-trivial sequence = mixes >= 2 entry points and contains a rejected frame or a clear() with pending bits while a scancode prefix is pending (distinct by op string).".into();
+    run.rule = "Differential against three separately owned stages (Ps2Decoder, ScancodeSetN, EventDecoder) wired exactly as the property says; every return value is compared, and after each sequence both sides receive a probe suffix that fingerprints every stage behaviourally (press of A through an argument-encoding layout = modifiers + mode; byte 0x14/0x1D = a different event in every scancode context; two valid frames bit by bit = pending count and register contents). Exhaustive per-operation slices over the fed stage with the other stages in non-initial states: add_bit (2047 frame states x 2 bits x 6/3 scancode contexts x 8 modifier states), add_word (2048 words x contexts x 8 x 3 frame states), add_byte (256 x contexts x 64 frame states x 8), process_keyevent (124 x 3 x 64 frame states x contexts x 2), clear / set_ctrl_handling (2047 x contexts x 8 x 3). State exploration: BFS over a 21-symbol alphabet of operations with states named by Keyboard's Debug rendering. Repeat-then-perturb: the same accepted frame 1-8 times (typematic repeat, as words and bit by bit), then each single-bit corruption, in every scancode context. Deep-history families: two-phase repetition grammar S A^i B^j T over a 21-symbol alphabet with (i,j) up to (700,700), burst cycles (A^a B^b)^40 for all ordered pairs and ten (a,b) shapes, and noisy-line workloads of 6000 frames, also in 'driver' form (every decoded key event fed to process_keyevent on both sides). Pumping: typical operation patterns repeated for >= 70,000 operations. Random: interleavings of all six entry points with line noise (corrupted frames, partial frames + clear(), raw words), shrunk by proptest. Non-trivial slice = another stage in a non-initial state (distinct by construction); non-trivial sequence = mixes >= 2 entry points and contains a rejected frame or a clear() with pending bits while a scancode prefix is pending (distinct by op string).".into();
     run.assumptions = vec![
         "the three stage types are used as their own reference: this is the relation the property states; what each stage does alone is C01-C07/C04/C14's business".into(),
         "words with bits above bit 10 are excluded (outside add_word's documented precondition)".into(),
@@ -1027,6 +1042,28 @@ pub fn c08(run: &mut Run) {
         run.eval(N * res.len() as u64);
         run.nontrivial_enum(res.len() as u64);
         run.part("pumping_2^32", json!({"jobs": res.iter().map(|(n, e)| json!({"job": n, "panicked": e.is_some()})).collect::<Vec<_>>(), "calls_per_job": N}));
+    }
+
+    // every key of the keyboard held at once (in several orders), then released; N keys held,
+    // a modifier event, N keys released
+    {
+        let mut n = 0u64;
+        let nk = ALL_KEYS.len();
+        for rot in [0usize, 17, 59, 101] {
+            for rev in [false, true] {
+                let mut order: Vec<KeyCode> = (0..nk).map(|i| ALL_KEYS[(i + rot) % nk]).collect();
+                if rev { order.reverse(); }
+                let mut ops: Vec<Op> = order.iter().map(|k| Op::Event(*k, KeyState::Down)).collect();
+                ops.extend(order.iter().map(|k| Op::Event(*k, KeyState::Down))); // typematic on everything
+                ops.extend(order.iter().rev().map(|k| Op::Event(*k, KeyState::Up)));
+                ops.extend(order.iter().map(|k| Op::Event(*k, KeyState::Up))); // spurious second release
+                ops.push(Op::Event(KeyCode::A, KeyState::Down));
+                c08_eval_ops::<ScancodeSet2>(run, (rot % N_LAYOUTS) as usize, &ops);
+                n += 1;
+            }
+        }
+        run.nontrivial_enum(n);
+        run.part("all_keys_held_at_once", json!({"sequences": n, "keys": nk}));
     }
 
     // random event histories (typematic repeats, many keys held at once) on every layout
